@@ -393,7 +393,7 @@ pub fn gadgets() -> Vec<Gadget> {
         }
         out
     }
-    g!(v, "precomputed_base_scalar_mul_le (witness bits, accumulator = zero())", "EBits", false, |cs, i| {
+    g!(v, "precomputed_base_scalar_mul_le (constant bases; witness bits, accumulator = zero())", "EBits", false, |cs, i| {
         use ark_r1cs_std::groups::CurveVar;
         let Inp::EBits(p, bits) = i else { panic!("harness") };
         let bv = mixed_bits(cs, bits, |_, _| 1)?;
@@ -402,7 +402,7 @@ pub fn gadgets() -> Vec<Gadget> {
         acc.precomputed_base_scalar_mul_le(bv.iter().zip(bases.iter()))?;
         Ok(OutVar::E(acc))
     }, |i| nat_mul(i));
-    g!(v, "precomputed_base_scalar_mul_le (mixed bits, accumulator = the base as a witness)", "EBits", false, |cs, i| {
+    g!(v, "precomputed_base_scalar_mul_le (constant bases; mixed bits, accumulator = the base as a witness)", "EBits", false, |cs, i| {
         use ark_r1cs_std::groups::CurveVar;
         let Inp::EBits(p, bits) = i else { panic!("harness") };
         let bv = mixed_bits(cs, bits, |k, n| if (k * 5 + n) % 3 == 0 { 0 } else { 1 })?;
@@ -413,7 +413,7 @@ pub fn gadgets() -> Vec<Gadget> {
     }, |i| nat_mul(i)); // (ark-r1cs-std semantics: the previous value of the accumulator is discarded)
     // (one scalar only: with several, the provided method of ark-r1cs-std 0.4 restarts from zero for every scalar and
     //  returns the last term -- behaviour of the dependency, outside this repository, not judged here)
-    g!(v, "precomputed_base_multiscalar_mul_le (one scalar, bases -2P, -4P, ...)", "EBits", false, |cs, i| {
+    g!(v, "precomputed_base_multiscalar_mul_le (constant bases -2P, -4P, ...; one scalar)", "EBits", false, |cs, i| {
         use ark_r1cs_std::groups::CurveVar;
         let Inp::EBits(p, bits) = i else { panic!("harness") };
         let bv1 = mixed_bits(cs, bits, |_, _| 1)?;
@@ -421,7 +421,7 @@ pub fn gadgets() -> Vec<Gadget> {
         let r = <ElementVar as CurveVar<El, Fq>>::precomputed_base_multiscalar_mul_le(&[b2], [bv1].iter())?;
         Ok(OutVar::E(r))
     }, |i| nat_mul(i).map(|o| match o { Out::E(e) => Out::E(-(e + e)), o => o }));
-    g!(v, "CurveVar::zero() / is_zero / constant", "E", false, |cs, i| {
+    g!(v, "CurveVar::zero() / is_zero / constant (constant operand)", "E", false, |cs, i| {
         use ark_r1cs_std::groups::CurveVar;
         let z = <ElementVar as CurveVar<El, Fq>>::zero();
         let e = raw(cs, &e1(i))?;
